@@ -147,6 +147,26 @@ def _vec(ev, e, names, card):
     return out
 
 
+def _present(names, k):
+    """A VariableHint for the named variables, the ways a caller may write one: variables, names, value-marked or
+    subscripted versions of the variables (only the base variable counts), a bare singleton."""
+    from y0.dsl import Variable
+
+    k = k % 6
+    if k == 0 or not names:
+        return [Variable(n) for n in names]
+    if k == 1:
+        return list(names)
+    if k == 2:
+        return [-Variable(n) for n in names]
+    if k == 3:
+        other = next((x for x in DEFAULT_NAMES if x not in names), None)
+        return [Variable(n) @ -Variable(other) if other else Variable(n) for n in names]
+    if k == 4:
+        return tuple([+Variable(names[0])] + [Variable(n) for n in names[1:]])
+    return Variable(names[0]) if len(names) == 1 else {Variable(n) for n in names}
+
+
 def check(case, ignore_regions=False) -> Outcome:
     from y0.dsl import Fraction, One, Probability, Product, Sum, Variable, Zero
     from y0.mutate.chain import bayes_expand, chain_expand, fraction_expand
@@ -229,7 +249,7 @@ def check(case, ignore_regions=False) -> Outcome:
             out.nontrivial = not (type(a) is Probability and type(b) is Probability)
         elif op == "marginalize":
             rs = case["rs"]
-            r = a.marginalize([Variable(n) for n in rs])
+            r = a.marginalize(_present(rs, case["mseed"]))
             bad = compare(r, lambda env: sum_over(a, rs, env), "marginal-differs")
             out.nontrivial = True
         elif op == "conditional":
@@ -240,7 +260,7 @@ def check(case, ignore_regions=False) -> Outcome:
             else:
                 outcome_names = exprgen.spec_names(spec)
             comp = sorted(outcome_names - set(rs))
-            r = a.conditional([Variable(n) for n in rs])
+            r = a.conditional(_present(rs, case["mseed"] // 7))
 
             def want(env):
                 d = sum_over(a, comp, env)
